@@ -87,8 +87,16 @@ class G:
         """receivers in the states the operators branch on: empty but not yet detected (several ways), marked empty,
         universe, a single point (non-unit divisor), with a line, lower-dimensional"""
         r = self.r
-        k = r.choice(["undetected_empty", "undetected_empty", "marked_empty", "universe", "point", "line", "lowdim", "undetected_empty_gens_then_con"])
+        k = r.choice(["undetected_empty", "undetected_empty", "marked_empty", "universe", "point", "line", "lowdim", "undetected_empty_gens_then_con",
+                      "pending_gens", "pending_cons"])
         if n == 0 and k in ("point", "line", "lowdim"): k = "universe"
+        if k in ("pending_gens", "pending_cons"):
+            # both descriptions minimized, then one more row: it stays pending until something forces it
+            base = "new %d %s %d %s" % (oid, topo, n, r.choice(["universe", "cons %s" % self.cons(n, topo, 1, 3), "gens %s" % self.gens(n, topo, 1, 3)]))
+            prep = ["obs %d minimized_generators" % oid, "obs %d minimized_constraints" % oid]
+            if k == "pending_gens": last = "op %d add_generator %s" % (oid, self.gen(n, topo, r.choice("ppr") if n else "p"))
+            else: last = "op %d add_constraint %s" % (oid, self.con(n, topo))
+            return "\n".join([base] + prep + [last])
         if k == "undetected_empty":
             if n == 0: return "new %d %s 0 cons 2 >= 1 >= -1" % (oid, topo)
             v = self.vec(n, nz=True); b = r.randint(-2, 2)
@@ -126,7 +134,12 @@ class G:
         if how < 0.08: s = "new %d %s %d universe" % (oid, topo, n)
         elif how < 0.14: s = "new %d %s %d empty" % (oid, topo, n)
         elif how < 0.60: s = "new %d %s %d cons %s" % (oid, topo, n, self.cons(n, topo))
-        elif how < 0.92 or not dims: s = "new %d %s %d gens %s" % (oid, topo, n, self.gens(n, topo))
+        elif how < 0.92 or not dims:
+            gtxt = self.gens(n, topo)
+            s = "new %d %s %d gens %s" % (oid, topo, n, gtxt)
+            t = gtxt.split(" ")[1:]
+            if not hasattr(self, "pts"): self.pts = {}
+            self.pts[oid] = [list(map(int, t[i + 2:i + 2 + n])) for i in range(0, len(t), n + 2) if t[i] in "pc" and t[i + 1] == "1"]
         else:
             src = r.choice(list(dims.keys()))
             n = dims[src]
@@ -249,6 +262,13 @@ class G:
         if q == "relation_with_con": return "%s %s" % (p, self.con(n, "NNC"))
         if q == "relation_with_gen": return "%s %s" % (p, self.gen(n, topo))
         if q == "relation_with_cg":
+            pts = getattr(self, "pts", {}).get(x)
+            if pts and n > 0 and r.random() < 0.6:
+                # a congruence one of whose hyperplanes passes through a point the object was built from
+                # (the polyhedron may only touch it), possibly shifted by a multiple of the modulus
+                pt = r.choice(pts); a = self.vec(n, nz=True); m = r.choice([1, 2, 3, 5])
+                b = -sum(ai * pi for ai, pi in zip(a, pt)) + m * r.randint(-2, 2)
+                return "%s %d %d %s" % (p, m, b, " ".join(map(str, a)))
             return "%s %d %d %s" % (p, r.choice([0, 1, 2, 3]), self.coef(-3, 3), " ".join(map(str, self.vec(n, nz=False))))
         if q in ("bounds_from_above", "bounds_from_below", "maximize", "minimize"): return "%s %s" % (p, self.expr(n))
         if q == "constrains": return "%s %d" % (p, r.randrange(n))
@@ -257,6 +277,7 @@ class G:
     def history(self, cid, nobj=3, steps=7, ops=None, pq=0.3, pobs=0.2):
         r = self.r
         dims, topos = {}, {}
+        self.pts = {}
         lines = ["case %s" % cid]
         for o in range(nobj):
             lines.append(self.new(o, dims, topos))
@@ -273,7 +294,7 @@ class G:
                 else: lines.append(m)
         lines.append("stall")
         lines.append("end")
-        return lines
+        return [l for x in lines for l in x.split("\n")]
 
 def make_cases(seed, count, maxdim=3, nobj=3, steps=7, ops=None, pq=0.3, pobs=0.2, start=0, special=0.0, divbias=False, partners=True):
     g = G(seed, maxdim)
